@@ -251,6 +251,11 @@ func (s *Server) serveGated(req *http.Request, actor string, rd ResourceDef, pr 
 	if res != nil && verb == "get" {
 		ev["got"] = Project(res)
 	}
+	if res != nil {
+		ev["ret"] = Project(res) // what the client was handed back
+	} else {
+		ev["ret"] = Absent()
+	}
 	s.Trace.Emit(ev)
 
 	if code == 0 {
@@ -370,6 +375,22 @@ func (s *Server) Env(op EnvOp) int {
 		})
 	case "setfinalizers":
 		mutate(func(o Obj) { setFinalizers(o, op.Finalizers) })
+	case "dropfin":
+		mutate(func(o Obj) {
+			var keep []string
+			for _, f := range finalizers(o) {
+				drop := false
+				for _, d := range op.Finalizers {
+					if d == f {
+						drop = true
+					}
+				}
+				if !drop {
+					keep = append(keep, f)
+				}
+			}
+			setFinalizers(o, keep)
+		})
 	case "setfield":
 		mutate(func(o Obj) {
 			if op.Value == nil {
